@@ -243,6 +243,42 @@ def tab_configs(rng, unc, n):
     return out
 
 
+EOF_TAILS = [
+    ("C", "int f(int a)\n{\n    return a;\n}\n"),
+    ("C", "int a;\n#endif\n"),
+    ("C", "#define X 1\n"),
+    ("C", "int a; /* last */\n"),
+    ("C", "int a; // last\n"),
+    ("C", "enum e { A, B };\n"),
+    ("C", "struct s\n{\n    int a;\n};\n"),
+    ("CPP", "namespace n\n{\nint a;\n}\n"),
+    ("CPP", "class K\n{\npublic:\n    int f() { return 1; }\n};\n"),
+    ("CPP", "struct P\n{\n    P()\n    {\n        ok->onClick([this](int code) {\n            run(code);\n        });\n    }\n};\n"),
+    ("CPP", "static auto h = make_handler([](int v) {\n    return v + 1;\n});\n"),
+    ("CPP", "void g()\n{\n    call([&](int a) { use(a); }, 2);\n}\n"),
+    ("CPP", "template<typename T>\nT id(T t)\n{\n    return t;\n}\n"),
+    ("JAVA", "class A\n{\n    int f()\n    {\n        return 1;\n    }\n}\n"),
+    ("CS", "namespace N\n{\n    class A\n    {\n        int P { get; set; }\n    }\n}\n"),
+]
+
+
+def eof_configs(rng, n):
+    out = []
+    for k in range(n):
+        mode = ["force", "add", "remove", "force", "ignore"][k % 5]
+        mn = [1, 2, 3][(k // 5) % 3]
+        l = ["nl_end_of_file=%s" % mode, "nl_end_of_file_min=%d" % mn]
+        for name, vals in (("nl_max_blank_in_func", ["1", "2"]), ("nl_after_func_body", ["1", "2", "3"]), ("nl_after_func_body_class", ["1", "2"]),
+                           ("nl_after_func_body_one_liner", ["1", "2"]), ("nl_after_struct", ["1", "2"]), ("nl_after_class", ["1", "3"]),
+                           ("nl_after_namespace", ["1", "2"]), ("nl_max", ["3", "4"]), ("eat_blanks_before_close_brace", ["true"]),
+                           ("nl_after_whole_file_endif", ["1", "2"]), ("nl_squeeze_ifdef", ["true"]), ("nl_remove_extra_newlines", ["1"]),
+                           ("nl_after_multiline_comment", ["true"]), ("nl_start_of_file", ["remove", "force"])):
+            if rng.random() < 0.3:
+                l.append("%s=%s" % (name, rng.choice(vals)))
+        out.append("\n".join(l) + "\n")
+    return out
+
+
 def dirty(rng, text):
     """seeded dirty whitespace: trailing blanks, tab/space mixes in indentation, whitespace-only lines"""
     out = []
@@ -325,6 +361,13 @@ def run(ctx):
             obs.write(src, dirty(ctx.rng, text))
             for ci, cc in enumerate(cfgs):
                 jobs.append(("dense|%s|%s|%d" % (lang, vn, ci), src, None, cc, lang))
+    # how the file ends: every kind of last construct x nl_end_of_file x minimum x the options that set newline counts near it
+    for ti, (lang, tail) in enumerate(EOF_TAILS):
+        for nin in (0, 1, 3):
+            src = os.path.join(tmp, "tail%d_%d%s" % (ti, nin, EXT[lang]))
+            obs.write(src, tail.rstrip("\n") + "\n" * nin)
+            for ci, cc in enumerate(eof_configs(ctx.rng, 10 if quick else 40)):
+                jobs.append(("tail|%d|%d|%d" % (ti, nin, ci), src, None, cc, lang))
     # corpus pairs with their own configuration (expected-output universe)
     cs = [c for c in corpus.cases() if (c.lang or corpus.lang_of(c.inp)) in EXT]
     ctx.rng.shuffle(cs)
